@@ -3,15 +3,17 @@
   (scenario/scenario.py) together with the part of `LaneletNetwork` (scenario/lanelet.py) that decides
   which objects are contained:
 
-    Scenario._id_set / _id_counter                         scenario.py:586-588
-    Scenario.add_objects (every object kind, list form)    scenario.py:686-790
-    Scenario.remove_obstacle (single / list)               scenario.py:861-907
-    Scenario.erase_lanelet_network / replace_lanelet_network   scenario.py:909-930
-    Scenario.remove_hanging_lanelet_members / remove_lanelet   scenario.py:932-987
-    Scenario.remove_traffic_sign / _light / _intersection  scenario.py:989-1049
-    Scenario.generate_object_id                            scenario.py:1051-1062
-    Scenario._mark_object_id_as_used / _mark_object_ids_as_used / _lanelet_network_object_ids
+    Scenario._id_set / _id_counter                                   scenario.py:586-588
+    Scenario.add_objects (every object kind, list form)              scenario.py:686-765
+    Scenario.remove_obstacle (single / list)                         scenario.py:836-882
+    Scenario.erase_lanelet_network / replace_lanelet_network         scenario.py:884-905
+    Scenario.remove_hanging_lanelet_members / remove_lanelet         scenario.py:907-962
+    Scenario.remove_traffic_sign / _light / _intersection            scenario.py:964-1024
+    Scenario.generate_object_id                                      scenario.py:1026-1037
+    Scenario._is_object_id_used / _mark_object_id_as_used / _mark_object_ids_as_used /
+      _lanelet_network_object_ids                                    scenario.py:1322-1372
     LaneletNetwork.add_* / remove_* / cleanup_traffic_*_references   lanelet.py:1597-1915
+  (line numbers of the tree after the three `fix:` commits listed in known-findings.txt)
 
   Objects are reduced to what the id bookkeeping reads: ids, the traffic-sign / traffic-light references of a
   lanelet (they decide which signs and lights `remove_lanelet` takes along) and the incoming ids of an
@@ -74,7 +76,7 @@ inductive Op where
   | addList (os : List Obj) (refs : List Nat)    -- add_objects([..], lanelet_ids=refs)
   | removeObstacle (id : Nat)
   | removeObstacles (ids : List Nat)
-  | removeLanelets (ls : List Lanelet) (refd : Bool)   -- single form is wrapped into `[l]` (scenario.py:979-980)
+  | removeLanelets (ls : List Lanelet) (refd : Bool)   -- single form is wrapped into `[l]` (scenario.py:954-955)
   | removeSign (id : Nat)
   | removeSigns (ids : List Nat)
   | removeLight (id : Nat)
@@ -198,7 +200,7 @@ def addNetwork (s : St) (n : Net) : St × Out :=
   onMarked (markMany s (netIds n)) fun s1 =>
     { s1 with idSet := s1.idSet.filter (fun k => k ∉ netIds s.net), net := n }
 
-/-- `add_objects` for one object (scenario.py:721-790). -/
+/-- `add_objects` for one object (scenario.py:718-765). -/
 def addObj (s : St) (o : Obj) (refs : List Nat) : St × Out :=
   match o with
   | .obstacle r k => onMarked (mark s k) fun s1 => putObstacle s1 r k
@@ -214,7 +216,7 @@ def addList (s : St) (os : List Obj) (refs : List Nat) : St × Out :=
   forEach (fun s o => addObj s o refs) s os
 
 /-- `remove_obstacle` for one obstacle: looked up by id in static, dynamic, environment, phantom (in this
-    order); unknown id → warning only (scenario.py:889-907). -/
+    order); unknown id → warning only (scenario.py:864-882). -/
 def removeObstacle (s : St) (k : Nat) : St × Out :=
   if k ∈ s.stat then release { s with stat := s.stat.filter (· ≠ k) } k
   else if k ∈ s.dyn then release { s with dyn := s.dyn.filter (· ≠ k) } k
@@ -271,7 +273,7 @@ def eraseLanelet (s : St) (k : Nat) : St × Out :=
   | some l => removeLanelets s [l] true
   | none => release s k      -- not reachable while the dict keys are unique
 
-/-- `erase_lanelet_network` (scenario.py:909-921). -/
+/-- `erase_lanelet_network` (scenario.py:884-896). -/
 def erase (s : St) : St × Out :=
   andThen (forEach eraseLanelet s (s.net.lanelets.map (·.id))) fun s1 =>
   andThen (forEach removeSign s1 s1.net.signs) fun s2 =>
@@ -287,7 +289,7 @@ def listMax : List Nat → Nat
   | [] => 0
   | a :: as => max a (listMax as)
 
-/-- `generate_object_id` (scenario.py:1051-1062). -/
+/-- `generate_object_id` (scenario.py:1026-1037). -/
 def genId (s : St) : St × Out :=
   let c0 := s.counter.getD 0
   let c1 := if s.idSet.isEmpty then c0 else max c0 (listMax s.idSet)
